@@ -72,3 +72,15 @@ def force_disabled(docsrc, pytest):
     if pytest:
         return re_match(DISABLE_PYTEST, 2, docsrc)
     return re_match(DISABLE_NATIVE, 2, docsrc)
+
+
+from pyvc.specs_support import uninterp as _uninterp
+
+_BOUNDARIES = '\n\r\x0b\x0c\x1c\x1d\x1e\x85  '
+
+
+@_uninterp('(list[str]) -> bool',
+           note="a list of plain lines: no element contains a line boundary and the last element is not empty "
+                "(then '\\n'.join(xs).splitlines() == xs)")
+def plain_lines(xs):
+    return all(not any(b in x for b in _BOUNDARIES) for x in xs) and (len(xs) == 0 or xs[-1] != '')
